@@ -220,6 +220,10 @@ macro_rules! combo {
                     // MissingParameters; that is still "not an error reply" and not C04's subject
                     (Want::Success(_), Seen::Failed(e)) => path == "proxy" && !$unit && e.contains("MissingParameters"),
                     (Want::FailedNoError, Seen::Failed(_)) => true,
+                    // no `error` member at all: a proxy method without outputs ignores the parameters of
+                    // such a reply (so that absent / null / {} all mean "no parameters", C05); reporting
+                    // it as success is not C04's subject
+                    (Want::FailedNoError, Seen::Success(_)) => path == "proxy" && $unit,
                     (Want::ServiceError(w), Seen::ServiceError(s)) => w == s,
                     (Want::MethodError(w), Seen::MethodError(s)) => w == s,
                     (Want::NotSuccess, Seen::Success(_)) => false,
